@@ -682,6 +682,78 @@ fn trace_getters(w: &mut W, seed: u64, n_ops: usize, st: &mut Stats) {
     }
 }
 
+/// G (every third trace): the enumerate-style calls are OPERATIONS of the history here - both twins make the same
+/// Enumerate / hasNext / String / Get calls at the same positions, complete, abandoned half-way and raw (a slot read
+/// without its Enumerate, e.g. a pending candidate enumeration read again after the list was closed), and their
+/// answers are compared - and only PLAIN getters are inserted into twin B.  A plain getter that disturbs an iterator
+/// slot (seeded change C17-totalchoice-drops-cand-iter, missed by the other form: there a slot is only read after
+/// its own Enumerate) changes the answer of a later slot call.
+fn trace_getters_slots(w: &mut W, seed: u64, n_ops: usize, st: &mut Stats) {
+    let mut rng = Rng::new(seed);
+    let mini = rng.chance(1, 2);
+    let (ha, hb) = (home(mini), home(mini));
+    let (a, b) = (new_ctx(&ha), new_ctx(&hb));
+    let mut hist: Vec<String> = vec![];
+    let mut sel = false;
+    st.g_slot_traces += 1;
+    'outer: for _ in 0..n_ops {
+        for op in gen_ops(&mut rng, sel, true, true) {
+            // both twins: a slot call
+            if rng.chance(1, 2) {
+                let kind = rng.below(3);
+                let lim = *rng.pick(&[0usize, 1, 2, 3, 1000]);
+                let which = rng.below(3);
+                let stat = rng.chance(1, 2);
+                let ri = rng.below(8);
+                let call = |c: Ctx| -> String {
+                    unsafe {
+                        match kind {
+                            0 | 1 => match which {
+                                0 => cand_loop(c, lim, stat),
+                                1 => interval_loop(c, lim),
+                                _ => kbtype_loop(c, lim, stat),
+                            },
+                            _ => raw(c, ri),
+                        }
+                    }
+                };
+                let (xa, xb) = (call(a), call(b));
+                st.g_slot_calls += 1;
+                hist.push(format!("AB:{}", xa.split(' ').take(2).collect::<Vec<_>>().join(" ")));
+                if xa != xb {
+                    w.fail("with/without plain getters: an enumerate-style call answers differently", &hist, seed, &format!("[{}] vs [{}]", xa, xb));
+                    break 'outer;
+                }
+            }
+            // twin B only: plain getters
+            if rng.chance(2, 3) {
+                for _ in 0..(1 + rng.below(5)) {
+                    let (i, arg) = (rng.below(N_PLAIN), rng.below(1000));
+                    let (x, y) = unsafe { (plain(b, i, arg), plain(b, i, arg)) };
+                    st.inserted[0] += 1;
+                    hist.push(format!("B?{}", x.split(' ').next().unwrap_or("")));
+                    if x != y {
+                        w.fail("a getter answers differently when repeated", &hist, seed, &format!("[{}] [{}]", x, y));
+                        break 'outer;
+                    }
+                }
+            }
+            hist.push(op.text());
+            let (ra, rb) = unsafe { (apply(a, &op), apply(b, &op)) };
+            st.g_ops += 1;
+            if ra != rb {
+                w.fail("with/without queries: return values differ", &hist, seed, &format!("{} vs {}", ra, rb));
+                break 'outer;
+            }
+            sel = selecting(a);
+        }
+    }
+    unsafe {
+        chewing_delete(a);
+        chewing_delete(b);
+    }
+}
+
 /// R: chewing_Reset after a random prefix vs. a new context with the same configuration and user phrases
 fn trace_reset(w: &mut W, seed: u64, n_ops: usize, st: &mut Stats) {
     let mut rng = Rng::new(seed);
@@ -1394,6 +1466,8 @@ fn section_logger(w: &mut W) {
 #[derive(Default)]
 struct Stats {
     g_traces: u64,
+    g_slot_traces: u64,
+    g_slot_calls: u64,
     g_ops: u64,
     inserted: [u64; 4],
     r_traces: u64,
@@ -1417,6 +1491,7 @@ fn cum_line(section: &str, st: &Stats) -> String {
             ("G.traces", st.g_traces), ("G.ops", st.g_ops), ("G.inserted_plain_getters_each_twice", st.inserted[0]),
             ("G.inserted_complete_enumerations", st.inserted[1]), ("G.inserted_abandoned_enumerations", st.inserted[2]),
             ("G.inserted_raw_slot_reads", st.inserted[3]), ("G.observations", st.observations),
+            ("G.traces_with_slot_calls_as_operations", st.g_slot_traces), ("G.slot_calls_compared", st.g_slot_calls),
         ],
         "R" => vec![
             ("R.traces", st.r_traces), ("R.continuation_ops", st.r_ops), ("R.reset_while_selecting", st.r_in_selecting),
@@ -1454,6 +1529,7 @@ fn worker(section: &str, from: u64, to: u64) {
         let s = seed.wrapping_mul(9_000_011).wrapping_add(t);
         println!("@trace {}", t);
         match section {
+            "G" if t % 3 == 2 => trace_getters_slots(&mut w, s ^ 0x6800, n_ops, &mut st),
             "G" => trace_getters(&mut w, s ^ 0x6000, n_ops, &mut st),
             "R" => trace_reset(&mut w, s ^ 0x7000, n_ops, &mut st),
             _ => trace_contexts(&mut w, s ^ 0x8000, n_ops, t % 3 == 0, &mut st),
